@@ -1,3 +1,101 @@
+(* C05 -- numeric operators yield the exact value and the promoted kind, or fail.
+   Pinned statements only; proofs live in Num/NumProofs.v.  Models: Num/NumImpl.v (the operator macros of
+   bytecode/src/variables/ops*.rs, primitive.rs equals/negate, arm by arm), specification: Num/NumSpec.v.
+
+   Full statement (property C05), for the code as fixed by fixes/num-checked-arithmetic.diff ([Fixed]):
+     for every operator, every pair of numeric kinds and ALL operand values that fit their kinds,
+     the implementation yields exactly the value the specification defines -- of the kind given by the
+     promotion table -- and stops with a failure (Err or Panic, never a value) exactly when the
+     specification is Undefined (result not representable, shift amount out of range, zero divisor).
+   It is proved at full strength below (C05_binop_exact, C05_binop_kind, C05_neg_exact, C05_not_exact).
+   The float kind is specified by Flocq's IEEE-754 binary64 operations (round to nearest even); `%` on
+   floats by F_rem (NumDefs.v).  The ORIGINAL code is characterised by C05_orig_exact_except with the three
+   known classes K1-K3 and one refutation witness per class. *)
 From MS Require Import Num.NumImpl Num.NumSpec Num.NumProofs.
-Example C05_stub : binop_eval Fixed (Arith Add) (Int 1) (Int 2) = Ok (Int 3).
+
+(* all 16 binary operators x 16 kind pairs x all values *)
+Check binop_fixed : forall op a b, wf a -> wf b -> is_num a -> is_num b ->
+  meets (spec_binop op a b) (binop_eval Fixed op a b).
+Theorem C05_binop_exact : forall op a b, wf a -> wf b -> is_num a -> is_num b ->
+  meets (spec_binop op a b) (binop_eval Fixed op a b).
+Proof. exact binop_fixed. Qed.
+
+(* the kind of every defined result is the promoted kind (Bool for comparisons and equality) *)
+Check binop_kind : forall op a b ka kb v,
+  kind_of a = Some ka -> kind_of b = Some kb -> spec_binop op a b = Exact v ->
+  rkind_of v = result_kind op ka kb.
+Theorem C05_binop_kind : forall op a b ka kb v,
+  kind_of a = Some ka -> kind_of b = Some kb -> spec_binop op a b = Exact v ->
+  rkind_of v = result_kind op ka kb.
+Proof. exact binop_kind. Qed.
+
+(* unary minus and `!` *)
+Check neg_fixed : forall a, wf a -> meets (spec_neg a) (negate Fixed a).
+Theorem C05_neg_exact : forall a, wf a -> meets (spec_neg a) (negate Fixed a).
+Proof. exact neg_fixed. Qed.
+
+Check not_exact : forall a, meets (spec_not a) (not_ a).
+Theorem C05_not_exact : forall a, meets (spec_not a) (not_ a).
+Proof. exact not_exact. Qed.
+
+(* the original code: exact outside the known classes (m = Trap: debug build, m = Wrap: release build) *)
+Check binop_orig : forall m op a b, wf a -> wf b -> is_num a -> is_num b ->
+  ~ float_by_byte_zero op a b -> ~ rem_min_by_m1 op a b -> (m = Wrap -> ~ overflows op a b) ->
+  meets (spec_binop op a b) (binop_eval (Orig m) op a b).
+Theorem C05_orig_exact_except : forall m op a b, wf a -> wf b -> is_num a -> is_num b ->
+  ~ float_by_byte_zero op a b -> ~ rem_min_by_m1 op a b -> (m = Wrap -> ~ overflows op a b) ->
+  meets (spec_binop op a b) (binop_eval (Orig m) op a b).
+Proof. exact binop_orig. Qed.
+
+(* ... and really violates the specification inside each class (witnesses reproduced on the real binaries) *)
+Check orig_wrap_refuted : exists op a b,
+  wf a /\ wf b /\ is_num a /\ is_num b /\ overflows op a b /\
+  binop_eval (Orig Wrap) op a b = Ok (Int (-2147483648)) /\
+  ~ meets (spec_binop op a b) (binop_eval (Orig Wrap) op a b).
+Check orig_float_by_byte_zero_refuted : forall m, exists op a b,
+  wf a /\ wf b /\ is_num a /\ is_num b /\ float_by_byte_zero op a b /\
+  binop_eval (Orig m) op a b = Ok (Flt (B754_infinity false)) /\
+  ~ meets (spec_binop op a b) (binop_eval (Orig m) op a b).
+Check orig_rem_min_by_m1_refuted : forall m, exists op a b,
+  wf a /\ wf b /\ is_num a /\ is_num b /\ rem_min_by_m1 op a b /\
+  spec_binop op a b = Exact (Int 0) /\ binop_eval (Orig m) op a b = Panic.
+Check orig_neg_wrap_refuted :
+  wf (Int (-2147483648)) /\ spec_neg (Int (-2147483648)) = Undefined /\
+  negate (Orig Wrap) (Int (-2147483648)) = Ok (Int (-2147483648)).
+
+(* non-vacuity: the specification defines results (promotion, exactness, IEEE) and demands failures *)
+Example C05_promotes : spec_binop (Arith Mul) (Byte 200) (Big 170141183460469231731687303715884105)
+                       = Exact (Big 34028236692093846346337460743176821000).
 Proof. vm_compute. reflexivity. Qed.
+Example C05_overflow_fails : spec_binop (Arith Add) (Int 2147483647) (Byte 1) = Undefined
+                             /\ binop_eval Fixed (Arith Add) (Int 2147483647) (Byte 1) = Err.
+Proof. split; vm_compute; reflexivity. Qed.
+Example C05_zero_divisor_fails : spec_binop (Arith Div) (Flt (F_of_Z 3)) (Byte 0) = Undefined
+                                 /\ binop_eval Fixed (Arith Div) (Flt (F_of_Z 3)) (Byte 0) = Err.
+Proof. split; vm_compute; reflexivity. Qed.
+Example C05_trunc_div : binop_eval Fixed (Arith Div) (Int (-7)) (Byte 2) = Ok (Int (-3))
+                        /\ binop_eval Fixed (Arith Rem) (Int (-7)) (Byte 2) = Ok (Int (-1)).
+Proof. split; vm_compute; reflexivity. Qed.
+(* 2^53 + 1 as a bigint is rounded to 2^53 when compared with a double *)
+Example C05_cross_kind_eq : binop_eval Fixed (Equ Eq_) (Big 9007199254740993) (Flt (F_of_Z 9007199254740992))
+                            = Ok (Bool true).
+Proof. vm_compute. reflexivity. Qed.
+(* -8 % 3.0 = -2.0 : fmod, sign of the dividend *)
+Example C05_float_rem :
+  match binop_eval Fixed (Arith Rem) (Int (-8)) (Flt (F_of_Z 3)) with
+  | Ok (Flt f) => F_cmp f (F_of_Z (-2)) = Some Eq
+  | _ => False
+  end.
+Proof. vm_compute. reflexivity. Qed.
+Example C05_shift_range : binop_eval Fixed (Shift Shl) (Int 1) (Int 31) = Ok (Int (-2147483648))
+                          /\ binop_eval Fixed (Shift Shl) (Int 1) (Int 32) = Err
+                          /\ spec_binop (Shift Shl) (Int 1) (Int 32) = Undefined.
+Proof. vm_compute. repeat split. Qed.
+
+(* Print Assumptions last (the driver reads the axiom lists that follow each `Axioms:` header): the Flocq /
+   Reals library axioms only; C05_not_exact and the integer lemmas are closed under the global context *)
+Print Assumptions C05_binop_exact.
+Print Assumptions C05_binop_kind.
+Print Assumptions C05_neg_exact.
+Print Assumptions C05_not_exact.
+Print Assumptions C05_orig_exact_except.
